@@ -5,6 +5,10 @@ set -e
 cd "$(dirname "$0")"
 ROOT=$(pwd)
 mkdir -p build
+# serialise concurrent invocations (several checks may be started at once)
+if [ -z "$COX_BUILD_LOCKED" ]; then
+  COX_BUILD_LOCKED=1 exec flock "$ROOT/build/.lock" "$0" "$@"
+fi
 # 1. forbidden-construct gate (comments are allowed to mention the words)
 if grep -rnE '^\s*(Admitted|Axiom|Parameter|Conjecture|Hypothesis|Variable)\b|\badmit\b|Unset Guard|bypass_check|type-in-type|impredicative-set|Admit Obligations' \
      coq/theories --include='*.v' | grep -v '^coq/theories/[A-Za-z/]*\.v:[0-9]*:\s*(\*' ; then
